@@ -127,4 +127,27 @@ theorem special_owner (k : Nat) (hk : k < 6) :
   simp only [Bool.and_eq_true] at this
   exact ⟨okIs_eq this.1, this.2⟩
 
+/-- what `recvJsOk` gives: the receiver is a local / parameter `n`, and the translation of the method call -/
+theorem recvJsOk_spec (c : JCtx) (o : Expr) (m : Spec.Name) (as : List Expr) (h : recvJsOk o = true) :
+    ∃ n, (jsIdOk n = true ∧ n ≠ "me".toList ∧ specialCall n = false ∧ listFn n = false) ∧
+      toJsE c (.mcall o m as) = .call (.id n) (jcall "symbol" [.sstr m] :: toJsEs c as) ∧
+      mcallRecv o = some n ∧ (o = .var .loc n ∨ o = .var .param n) := by
+  cases o with
+  | var k n =>
+    cases k with
+    | loc =>
+      simp only [recvJsOk, Bool.and_eq_true, bne_iff_ne, ne_eq, Bool.not_eq_true'] at h
+      have hm : ¬ n = "me".toList := h.1.1.2
+      refine ⟨n, ⟨h.1.1.1, hm, h.1.2, h.2⟩, ?_, rfl, Or.inl rfl⟩
+      have hm' : ¬ n = ['m', 'e'] := hm
+      simp [toJsE, isMeExpr, hm']
+    | param =>
+      simp only [recvJsOk, Bool.and_eq_true, bne_iff_ne, ne_eq, Bool.not_eq_true'] at h
+      have hm : ¬ n = "me".toList := h.1.1.2
+      refine ⟨n, ⟨h.1.1.1, hm, h.1.2, h.2⟩, ?_, rfl, Or.inr rfl⟩
+      have hm' : ¬ n = ['m', 'e'] := hm
+      simp [toJsE, isMeExpr, hm']
+    | _ => simp [recvJsOk] at h
+  | _ => simp [recvJsOk] at h
+
 end Drx.LinkJs
